@@ -40,7 +40,7 @@ class Bounded:
         self.keys.add(key if isinstance(key, str) else json.dumps(key, sort_keys=True, default=str))
 
     def fail(self, clause, input_, why, observed=None, expected=None, key=None):
-        if len(self.failures) < 200:
+        if len(self.failures) < 5000:
             self.failures.append({"clause": clause, "input": input_, "key": key or json.dumps(input_, sort_keys=True, default=str),
                                   "why": why, "observed": observed, "expected": expected})
 
@@ -53,7 +53,7 @@ class Bounded:
             w = csv.writer(f, delimiter=delimiter, quotechar=quotechar)
             for r in rows:
                 w.writerow(r)
-        return os.path.join(self.work, name)
+        return os.path.abspath(name)
 
     def write_lines(self, name, lines):
         """records given as raw text lines ('' is a blank record)"""
@@ -61,7 +61,7 @@ class Bounded:
             f.write("\n".join(lines))
             if lines:
                 f.write("\n")
-        return os.path.join(self.work, name)
+        return os.path.abspath(name)
 
     @contextlib.contextmanager
     def quiet(self):
@@ -115,9 +115,20 @@ class Bounded:
             self.failures.extend(fs)
         for p_ in ps:
             p_.join()
-        self.failures = self.failures[:200]
+
+    def _diverse(self):
+        """keep a few failures per (clause, shape) so that every class of failing input is reported"""
+        out, cnt = [], {}
+        for f in self.failures:
+            shape = f["input"].get("shape") if isinstance(f.get("input"), dict) else None
+            k = (f["clause"], shape)
+            cnt[k] = cnt.get(k, 0) + 1
+            if cnt[k] <= 3:
+                out.append(f)
+        return out[:400]
 
     def finish(self):
+        self.failures = self._diverse()
         os.chdir("/")
         shutil.rmtree(self.work, ignore_errors=True)
         json.dump({"enumerated": self.enumerated, "random": self.random, "distinct": len(self.keys), "exhaustive": self.exhaustive and self.random == 0,
